@@ -9,7 +9,7 @@ from __future__ import annotations
 import math
 from fractions import Fraction as F
 
-from mc import builder, charts, starts
+from mc import builder, charts, fileio, starts
 from refs import sm as rs
 
 ID = "C03"
@@ -323,6 +323,8 @@ def judge(ms, dens, exact, slow_bpm, site, case, ctx):
         ctx.check("write.repeatable", again == text, site=dict(route=site.get("route")), case=case, observed=again[-600:], expected=text[-600:])
     except Exception as e:
         ctx.check("write.repeatable", False, site=dict(route=site.get("route"), exc=type(e).__name__), case=case, observed=f"{type(e).__name__}: {e}"[:300], expected="the same text")
+    if not site.get("devs") or len(site.get("devs")) <= 1:
+        fileio.check_file_entry_points(ctx, "sm", None, ms, None, dict(route="file-entry"), case, written=text)
     p = rs.parse(text)
     kinds = sorted({problem_class(s) for s in p["syntax"]})
     ctx.check("syntax", not p["syntax"], site=dict(site, problems=kinds[:3]), case=case, observed=p["syntax"][:5], expected="every tag '#NAME:value;', nothing outside tags, rows of <keys> symbols, rows per measure a multiple of 4")
